@@ -62,6 +62,10 @@ def run_job(j):
     H, W = j["H"], j["W"]
     vals = np.array([[np.nan if v == "nan" else (np.inf if v == "inf" else (-np.inf if v == "-inf" else float(v))) for v in row]
                      for row in j["vals"]], dtype=np.float64)
+    if j.get("dtype"):
+        # what the library sees is the raster AFTER the dtype cast: masks, value codes and allocation values
+        # are all derived from that array
+        vals = vals.astype(j["dtype"]).astype(np.float64)
     # "scale": the integer lattice coordinates are multiplied by a (possibly non-binary) cell size;
     # observed distances are mapped back to lattice units before encoding
     sc = float(j.get("scale", 1.0))
